@@ -205,6 +205,15 @@ def run(ctx):
                 spec_fail.append((m, "attrs (%s, %s), window is %s..%s" % (main["battr"], main["eattr"], inwin[0], inwin[-1])))
             if main["dims"] != ["y", "x", "time"]:
                 spec_fail.append((m, "dims %s" % main["dims"]))
+            osc = r.get("outside_scaled")
+            if osc and osc["n_changed"]:
+                dist["outside_scaled"] = dist.get("outside_scaled", 0) + 1
+                ins = np.array(osc["inside"])
+                if osc["res"]["raised"] is not None:
+                    spec_fail.append((m, "scaling the observations outside the calibration window makes spi raise %s" % osc["res"]["raised"]))
+                elif not np.array_equal(np.array(main["vals"])[..., ins], np.array(osc["res"]["vals"])[..., ins]):
+                    spec_fail.append((dict(m, data=c["data"]), "scaling observations OUTSIDE the calibration window changes the indices inside it: samples "
+                                                              "from outside the window take part in the fit"))
             if c.get("groups") is not None:
                 vals = np.array(main["vals"])
                 for g, sub in r["subs"].items():
